@@ -67,6 +67,9 @@ pub fn layers(with_invalid: bool) -> Vec<Layer> {
             COp::CreateStream(Some(2), st("bbb")),
             COp::CreateTopic(n(2), Some(1), st("xxx"), 1),
             COp::Send(n(1), n(1), 1, 2),
+            // two ready-made groups so that one client can hold several memberships within depth 3
+            COp::CreateGroup(n(1), n(1), Some(5), st("kkk")),
+            COp::CreateGroup(n(1), n(2), Some(5), st("kkk")),
         ],
         alphabet: vec![
             COp::CreateGroup(n(1), n(1), None, st("ggg")),
@@ -78,10 +81,12 @@ pub fn layers(with_invalid: bool) -> Vec<Layer> {
             COp::DeleteGroup(n(1), n(1), n(1)),
             COp::DeleteGroup(n(1), n(1), s("ggg")),
             COp::Join(1, n(1), n(1), n(1)),
-            COp::Join(2, n(1), n(1), n(1)),
-            COp::Join(1, n(1), n(2), n(1)),
-            COp::Join(1, n(2), n(1), n(1)),
-            COp::Leave(1, n(1), n(1), n(1)),
+            COp::Join(1, n(1), n(1), n(5)),
+            COp::Join(2, n(1), n(1), n(5)),
+            COp::Join(1, n(1), n(2), n(5)),
+            COp::Leave(1, n(1), n(1), n(5)),
+            COp::CreatePartitions(n(1), n(1), 1),
+            COp::DeletePartitions(n(1), n(1), 1),
             COp::StoreOffset(n(1), n(1), 1, 1),
             COp::DeleteTopic(n(1), n(1)),
             COp::DeleteStream(n(1)),
